@@ -10,6 +10,19 @@
 (* LegacyPullZero = TRUE is the code before the "fix:" commit              *)
 (* (`if not max_obj_cnt:` treats MaxObjectCount=0 like None); kept as a    *)
 (* regression configuration that must FAIL (shows the check is sensitive). *)
+(*                                                                         *)
+(* Several servers (Srvs): every MainProvider object owns its context      *)
+(* table (`self.enumeration_contexts = {}` in __init__); context ids are   *)
+(* uuids, i.e. globally fresh (one counter).  Must-fail switches:          *)
+(*   SharedContextTable  one table for all servers of the process (a       *)
+(*                       mutable class attribute): foreign contexts are    *)
+(*                       served and every server "holds" all sessions      *)
+(*   ExpireSessions      _pull_response closes and refuses a session whose *)
+(*                       idle time exceeds the stored OperationTimeout     *)
+(*                       without special-casing 0 = "never": under the     *)
+(*                       prompt-client assumption the idle time is a       *)
+(*                       positive infinitesimal, so exactly the sessions   *)
+(*                       opened with OperationTimeout=0 expire             *)
 (***************************************************************************)
 EXTENDS PullSrv, SequencesExt
 
@@ -20,20 +33,44 @@ CONSTANTS NObj, MaxId, Nss, Maxes, Kinds, Toggles,
                                \* the RAW MaxObjectCount parameter (None: all of
                                \* it is cut) instead of the defaulted one
           GenDepth,            \* > 0: emit call histories of that length
-          Cover                \* BOOLEAN: print every transition (workers 1)
+          Cover,               \* BOOLEAN: print every transition (workers 1)
+          Srvs,                \* servers in the process: {1} or {1, 2}
+          Ots,                 \* OperationTimeout values on Open
+          Coes,                \* ContinueOnError values on Open
+          SharedContextTable,  \* BOOLEAN (must-fail switch)
+          ExpireSessions,      \* BOOLEAN (must-fail switch)
+          RandArgs             \* BOOLEAN: simulation only - srv/ot/coe of a call
+                               \* are drawn with RandomElement instead of being
+                               \* enumerated (keeps the successor sets small)
 
 VARIABLES si,     \* implementation state
           s,      \* requirement state (lock step)
           bad,    \* Req clauses violated by the last implementation response
-          hist    \* call history (only when GenDepth > 0)
-vars == <<si, s, bad, hist>>
+          hist,   \* call history (only when GenDepth > 0)
+          pick    \* the random draw of the step (RandArgs only)
+vars == <<si, s, bad, hist, pick>>
+
+OtsOne == {NoOt}
+OtsTwo == {NoOt, 0}
+OtsAll == {NoOt, 0, 1, 40}
+CoesOne == {NoCoe}
+CoesTwo == {NoCoe, 1}
+CoesAll == {NoCoe, 0, 1}
+DefaultTimeout == 40               \* default_server_timeout in _open_response
 
 MaxesSmall == {NoMax, 0, 1, 2, 5}
 MaxesLarge == {NoMax, 0, 1, 2, 3, 7}
+MaxesTiny == {NoMax, 0, 1, 5}
 
 Results == {[i \in 1..n |-> i] : n \in 0..NObj}
 
-ImplInit == [ctx |-> << >>, nextid |-> 1, liveNs |-> Nss, pullOn |-> TRUE]
+ImplInit == [ctx |-> [v \in Srvs |-> << >>],    \* one table per MainProvider
+             nextid |-> 1,
+             liveNs |-> [v \in Srvs |-> Nss], pullOn |-> [v \in Srvs |-> TRUE]]
+
+(* the table server v works on *)
+First == CHOOSE x \in Srvs : \A y \in Srvs : x <= y
+T(v) == IF SharedContextTable THEN First ELSE v
 
 Err(code) == [ok |-> FALSE, code |-> code, objs |-> <<>>, eos |-> FALSE,
               ctx |-> 0]
@@ -44,74 +81,114 @@ DropN(q, n) == SubSeq(q, n + 1, Len(q))
 Without(f, id) == [x \in (DOMAIN f) \ {id} |-> f[x]]
 
 (* _open_response *)
-ImplOpen(st, k, ns, all, tradok, m) ==
-  IF ~tradok \/ ns \notin st.liveNs THEN <<Err(3), st>>     \* traditional op raised
-  ELSE IF ~st.pullOn THEN <<Err(7), st>>                     \* NOT_SUPPORTED
-  ELSE LET mm == IF m = NoMax THEN DefaultMax ELSE m IN
+ImplOpen(st, v, k, ns, all, tradok, m, ot, coe) ==
+  IF ~tradok \/ ns \notin st.liveNs[v] THEN <<Err(3), st>>  \* traditional op raised
+  ELSE IF ~st.pullOn[v] THEN <<Err(7), st>>                  \* NOT_SUPPORTED
+  ELSE LET mm == IF m = NoMax THEN DefaultMax ELSE m
+           timeout == IF ot = NoOt THEN DefaultTimeout ELSE ot IN
        IF Len(all) <= mm THEN <<Ok(all, TRUE, 0), st>>
        ELSE LET id == st.nextid IN
             <<Ok(Take(all, mm), FALSE, id),
               [st EXCEPT !.nextid = @ + 1,
-                         !.ctx = (id :> [kind |-> PullKindOf(k),
+                         !.ctx[T(v)] =
+                                 (id :> [kind |-> PullKindOf(k),
                                          data |-> IF LegacyTrimRaw /\ m = NoMax
                                                   THEN <<>> ELSE DropN(all, mm),
-                                         ns |-> ns]) @@ @]>>
+                                         ns |-> ns,
+                                         interoptimeout |-> timeout,
+                                         continueonerror |-> (coe = 1)]) @@ @]>>
 
 (* _pull_response *)
-ImplPull(st, pk, id, m) ==
-  IF ~st.pullOn THEN <<Err(7), st>>
-  ELSE IF id \notin DOMAIN st.ctx THEN <<Err(InvalidEnumCtx), st>>
-  ELSE LET c == st.ctx[id] IN
-       IF c.ns \notin st.liveNs THEN <<Err(3), st>>          \* validate_namespace
+ImplPull(st, v, pk, id, m) ==
+  IF ~st.pullOn[v] THEN <<Err(7), st>>
+  ELSE IF id \notin DOMAIN st.ctx[T(v)] THEN <<Err(InvalidEnumCtx), st>>
+  ELSE LET c == st.ctx[T(v)][id] IN
+       IF ExpireSessions /\ c.interoptimeout = 0     \* idle time > timeout
+       THEN <<Err(InvalidEnumCtx), [st EXCEPT !.ctx[T(v)] = Without(@, id)]>>
+       ELSE IF c.ns \notin st.liveNs[v] THEN <<Err(3), st>>  \* validate_namespace
        ELSE IF c.kind # pk THEN <<Err(InvalidEnumCtx), st>>
        ELSE LET mm == IF m = 0 /\ LegacyPullZero THEN DefaultMax ELSE m IN
             IF Len(c.data) <= mm
-            THEN <<Ok(c.data, TRUE, 0), [st EXCEPT !.ctx = Without(@, id)]>>
+            THEN <<Ok(c.data, TRUE, 0),
+                   [st EXCEPT !.ctx[T(v)] = Without(@, id)]>>
             ELSE <<Ok(Take(c.data, mm), FALSE, id),
-                   [st EXCEPT !.ctx[id].data = DropN(@, mm)]>>
+                   [st EXCEPT !.ctx[T(v)][id].data = DropN(@, mm)]>>
 
 (* CloseEnumeration *)
-ImplClose(st, id) ==
-  IF ~st.pullOn THEN <<Err(7), st>>
-  ELSE IF id \in DOMAIN st.ctx
-       THEN <<Ok(<<>>, FALSE, 0), [st EXCEPT !.ctx = Without(@, id)]>>
+ImplClose(st, v, id) ==
+  IF ~st.pullOn[v] THEN <<Err(7), st>>
+  ELSE IF id \in DOMAIN st.ctx[T(v)]
+       THEN <<Ok(<<>>, FALSE, 0), [st EXCEPT !.ctx[T(v)] = Without(@, id)]>>
        ELSE <<Err(InvalidEnumCtx), st>>
 
-Call(op, k, ns, all, tradok, m, id) ==
-  [op |-> op, k |-> k, ns |-> ns, all |-> all, tradok |-> tradok, m |-> m,
-   id |-> id]
+Call(op, v, k, ns, all, tradok, m, id, ot, coe) ==
+  [op |-> op, srv |-> v, k |-> k, ns |-> ns, all |-> all, tradok |-> tradok,
+   m |-> m, id |-> id, ot |-> ot, coe |-> coe]
+
+(* srv = 0 / ot, coe omitted: placeholders resolved by the random draw *)
+SrvsGen == IF RandArgs THEN {0} ELSE Srvs
+OtsGen  == IF RandArgs THEN {NoOt} ELSE Ots
+CoesGen == IF RandArgs THEN {NoCoe} ELSE Coes
 
 Calls ==
-  {Call("Open", k, ns, R, tok, m, 0) :
-      k \in Kinds, ns \in Nss, R \in Results, tok \in BOOLEAN, m \in Maxes}
-  \cup {Call("Pull", pk, 0, <<>>, TRUE, m, id) :
-      pk \in {PullKindOf(k) : k \in Kinds} \cup {3},
+  {Call("Open", v, k, ns, R, tok, m, 0, ot, coe) :
+      v \in SrvsGen, k \in Kinds, ns \in Nss, R \in Results, tok \in BOOLEAN,
+      m \in Maxes, ot \in OtsGen, coe \in CoesGen}
+  \cup {Call("Pull", v, pk, 0, <<>>, TRUE, m, id, NoOt, NoCoe) :
+      v \in SrvsGen, pk \in {PullKindOf(k) : k \in Kinds} \cup {3},
       m \in Maxes \ {NoMax}, id \in 1..MaxId}
-  \cup {Call("Close", 0, 0, <<>>, TRUE, 0, id) : id \in 1..MaxId}
+  \cup {Call("Close", v, 0, 0, <<>>, TRUE, 0, id, NoOt, NoCoe) :
+      v \in SrvsGen, id \in 1..MaxId}
   \cup (IF Toggles
-        THEN {Call("RemoveNs", 0, ns, <<>>, TRUE, 0, 0) : ns \in Nss}
-             \cup {Call("SetPull", 0, 0, <<>>, b, 0, 0) : b \in BOOLEAN}
+        THEN {Call("RemoveNs", v, 0, ns, <<>>, TRUE, 0, 0, NoOt, NoCoe) :
+                 v \in SrvsGen, ns \in Nss}
+             \cup {Call("SetPull", v, 0, 0, <<>>, b, 0, 0, NoOt, NoCoe) :
+                 v \in SrvsGen, b \in BOOLEAN}
         ELSE {})
 
 ImplStep(st, c) ==
-  CASE c.op = "Open"  -> ImplOpen(st, c.k, c.ns, c.all, c.tradok, c.m)
-    [] c.op = "Pull"  -> ImplPull(st, c.k, c.id, c.m)
-    [] c.op = "Close" -> ImplClose(st, c.id)
+  CASE c.op = "Open"  -> ImplOpen(st, c.srv, c.k, c.ns, c.all, c.tradok, c.m,
+                                  c.ot, c.coe)
+    [] c.op = "Pull"  -> ImplPull(st, c.srv, c.k, c.id, c.m)
+    [] c.op = "Close" -> ImplClose(st, c.srv, c.id)
     [] c.op = "RemoveNs" ->
-          <<Ok(<<>>, FALSE, 0), [st EXCEPT !.liveNs = @ \ {c.ns}]>>
+          <<Ok(<<>>, FALSE, 0), [st EXCEPT !.liveNs[c.srv] = @ \ {c.ns}]>>
     [] c.op = "SetPull" ->
           <<[Ok(<<>>, FALSE, 0) EXCEPT !.ok = c.tradok],
-            [st EXCEPT !.pullOn = c.tradok]>>
+            [st EXCEPT !.pullOn[c.srv] = c.tradok]>>
 
 Event(c, r, st2) ==
-  [op |-> c.op, k |-> c.k, ns |-> c.ns, all |-> c.all, tradok |-> c.tradok,
-   m |-> c.m, id |-> c.id, ok |-> r.ok, code |-> r.code, objs |-> r.objs,
-   eos |-> r.eos, ctx |-> r.ctx, nctx |-> Cardinality(DOMAIN st2.ctx)]
+  [op |-> c.op, srv |-> c.srv, k |-> c.k, ns |-> c.ns, all |-> c.all,
+   tradok |-> c.tradok, m |-> c.m, id |-> c.id, ot |-> c.ot, coe |-> c.coe,
+   ok |-> r.ok, code |-> r.code, objs |-> r.objs,
+   eos |-> r.eos, ctx |-> r.ctx,
+   nctx |-> Cardinality(DOMAIN st2.ctx[T(c.srv)])]
 
-Init == /\ si = ImplInit /\ s = InitState(Nss) /\ bad = {} /\ hist = <<>>
+NoPick == [srv |-> 0, ot |-> NoOt, coe |-> NoCoe, far |-> 0]
+Init == /\ si = ImplInit /\ s = InitState(Nss, Srvs) /\ bad = {} /\ hist = <<>>
+        /\ pick = NoPick
 
-Do(c) == LET rs == ImplStep(si, c)
-             e  == Event(c, rs[1], rs[2]) IN
+(* simulation: the server of a Pull/Close is the owner of the context in 3 *)
+(* of 4 draws (own session) and a random server otherwise (foreign)        *)
+OwnerOf(st, id, dflt) ==
+  LET o == {v \in Srvs : id \in DOMAIN st.ctx[v]} IN
+  IF o = {} THEN dflt ELSE CHOOSE v \in o : TRUE
+Resolve(c, p) ==
+  IF ~RandArgs THEN c
+  ELSE IF c.op = "Open" THEN [c EXCEPT !.srv = p.srv, !.ot = p.ot, !.coe = p.coe]
+  ELSE IF c.op \in {"Pull", "Close"}
+       THEN [c EXCEPT !.srv = IF p.far = 1 THEN p.srv
+                              ELSE OwnerOf(si, c.id, p.srv)]
+  ELSE [c EXCEPT !.srv = p.srv]
+
+Do(c0) ==
+  /\ pick' = IF RandArgs
+             THEN [srv |-> RandomElement(Srvs), ot |-> RandomElement(Ots),
+                   coe |-> RandomElement(Coes), far |-> RandomElement(1..4)]
+             ELSE pick
+  /\ LET c  == Resolve(c0, pick')
+         rs == ImplStep(si, c)
+         e  == Event(c, rs[1], rs[2]) IN
          /\ si' = rs[2]
          /\ bad' = Fails(s, e)
          /\ s' = Apply(s, e)
@@ -125,10 +202,11 @@ Spec == Init /\ [][Next]_vars
 
 ImplRefinesReq == bad = {}
 MappingHolds ==
-  /\ DOMAIN si.ctx = Open(s)
-  /\ \A id \in DOMAIN si.ctx :
-        /\ Rng(si.ctx[id].data) = s.ctx[id].rem
-        /\ si.ctx[id].kind = s.ctx[id].kind
+  \A v \in Srvs :
+  /\ DOMAIN si.ctx[v] = Own(s, v)
+  /\ \A id \in DOMAIN si.ctx[v] :
+        /\ Rng(si.ctx[v][id].data) = s.ctx[id].rem
+        /\ si.ctx[v][id].kind = s.ctx[id].kind
 SessionHolds == SessionInv(s)
 
 (* behaviour emission for the spec -> code replay *)
